@@ -1,6 +1,7 @@
 package main
 
 import (
+	"sort"
 	"fmt"
 	"go/token"
 	"go/types"
@@ -432,6 +433,9 @@ func (fv *FuncVC) applyContract(c *Contract, callee *ssa.Function, args []Val, a
 	env.assuming = true
 	env.bindResultNames(c, callee, res)
 	for _, e := range c.Ensures {
+		if mentionsIdent(e.E, "cov") {
+			continue // the callee's private coverage ghost means nothing to the caller
+		}
 		t := env.evalBool(e.E, e)
 		fv.assume(t)
 	}
@@ -598,6 +602,7 @@ func (fv *FuncVC) appendBuiltin(v ssa.Value, cc *ssa.CallCommon, pos token.Pos) 
 	if d.Sort.Kind == KBytes {
 		fv.ghostAppend(r, d, x, cc.Args[1], pos)
 	}
+	fv.siteClauses(v, d, x, r, pos)
 	_ = dt
 	fv.vals[v] = Val{T: r}
 }
@@ -727,4 +732,82 @@ func (fv *FuncVC) inertOwnMethod(cc *ssa.CallCommon) bool {
 		return false
 	}
 	return !nilguardInternal[f.Name()]
+}
+
+
+// siteClauses: assertions and coverage updates attached to the N-th append of
+// the function (`site append N: ...`). Names: parameters, the loop-carried
+// variables of the enclosing loops at their current values, `chunk` (what is
+// appended), `target` (the slice appended to), `appended` (the result), and the
+// ghost counter `cov` (input positions accounted for so far; 0 on entry).
+func (fv *FuncVC) siteClauses(v ssa.Value, d, x, r Term, pos token.Pos) {
+	if fv.C == nil || len(fv.C.Sites) == 0 {
+		return
+	}
+	if fv.appendOrd == nil {
+		fv.appendOrd = map[ssa.Value]int{}
+		var calls []*ssa.Call
+		for _, b := range fv.Fn.Blocks {
+			for _, in := range b.Instrs {
+				if c, ok := in.(*ssa.Call); ok {
+					if bi, ok := c.Call.Value.(*ssa.Builtin); ok && bi.Name() == "append" {
+						calls = append(calls, c)
+					}
+				}
+			}
+		}
+		sort.Slice(calls, func(i, j int) bool { return calls[i].Pos() < calls[j].Pos() })
+		for i, c := range calls {
+			fv.appendOrd[c] = i + 1
+		}
+		for n := range fv.C.Sites {
+			if n < 1 || n > len(calls) {
+				fv.unsupported("site append %d: the function has %d append calls", n, len(calls))
+			}
+		}
+	}
+	n := fv.appendOrd[v]
+	cls := fv.C.Sites[n]
+	if len(cls) == 0 {
+		return
+	}
+	env := fv.newEnv(fv.cur, fv.entry)
+	if fv.curBlock != nil {
+		for _, b := range fv.Fn.Blocks {
+			if !b.Dominates(fv.curBlock) {
+				continue
+			}
+			for _, in := range b.Instrs {
+				ph, ok := in.(*ssa.Phi)
+				if !ok {
+					break
+				}
+				if val, ok := fv.vals[ph]; ok && ph.Comment != "" {
+					env.names[ph.Comment] = val
+				}
+			}
+		}
+	}
+	env.names["chunk"] = Val{T: x}
+	env.names["target"] = Val{T: d}
+	env.names["appended"] = Val{T: r}
+	for _, cl := range cls {
+		switch cl.Kind {
+		case "site-assert":
+			t := env.evalBool(cl.E, cl)
+			cs := splitAnd(t)
+			for ci, c := range cs {
+				dd := fmt.Sprintf("append%d.%d", n, cl.Idx)
+				if len(cs) > 1 {
+					dd = fmt.Sprintf("append%d.%d.%d", n, cl.Idx, ci+1)
+				}
+				fv.oblige("site", dd, cl.Props, pos, c, cl.Src)
+			}
+			fv.assume(t)
+		case "site-cov":
+			inc := env.coerce(env.eval(cl.E), SMath)
+			cur := fv.ghostTerm(fv.cur, "cov", SMath)
+			fv.cur.ghost["cov"] = Term{S: app("+", cur.S, inc.S), Sort: SMath}
+		}
+	}
 }
